@@ -33,6 +33,10 @@ trait LatticeRing: RefEuclid {
     fn f_from_q(q: &Q) -> Self::F;
     /// library normal form of a pivot: the normalised associate
     fn norm_z(&self) -> Z;
+    /// a + b*theta (None if the ring has no second coordinate and b != 0)
+    fn small(a: i64, b: i64) -> Option<Self>
+    where
+        Self: Sized;
 }
 
 fn half() -> Q {
@@ -68,6 +72,9 @@ impl LatticeRing for Z {
     fn norm_z(&self) -> Z {
         self * self
     }
+    fn small(a: i64, b: i64) -> Option<Self> {
+        (b == 0).then(|| z(a))
+    }
 }
 
 impl LatticeRing for Quad<-1> {
@@ -95,6 +102,9 @@ impl LatticeRing for Quad<-1> {
     }
     fn norm_z(&self) -> Z {
         self.norm()
+    }
+    fn small(a: i64, b: i64) -> Option<Self> {
+        Some(Quad::of(a, b))
     }
 }
 
@@ -127,6 +137,9 @@ impl LatticeRing for Quad<-3> {
     fn norm_z(&self) -> Z {
         self.norm()
     }
+    fn small(a: i64, b: i64) -> Option<Self> {
+        Some(Quad::of(a, b))
+    }
 }
 
 fn hdot<T: LatticeRing>(u: &[T::F], v: &[T::F]) -> T::F {
@@ -157,6 +170,21 @@ fn gram_schmidt<T: LatticeRing>(b: &RMat<T>) -> Option<(Vec<Q>, Vec<Vec<T::F>>)>
         star.push(v);
     }
     Some((norms, mu))
+}
+
+/// the units of the reference ring among a + b*theta with |a|, |b| <= 1 (all of them for Z, Z[i], Z[omega])
+fn units<F: RefEuclid + LatticeRing>() -> Vec<F> {
+    let mut v = vec![];
+    for a in -1..=1i64 {
+        for b in -1..=1i64 {
+            if let Some(x) = F::small(a, b) {
+                if x.is_unit() && !v.contains(&x) {
+                    v.push(x);
+                }
+            }
+        }
+    }
+    v
 }
 
 fn check_hnf<R>(run: &Run, ring: &'static str, a: &RMat<R::Ref>, code: &str)
@@ -231,9 +259,22 @@ where
                         }
                         last = Some(j);
                         let piv = hr.at(i, j);
-                        // normalised pivot
+                        // normalised pivot: the pivot is the representative that the library's
+                        // normalisation assigns to EVERY associate of it (so the check does not
+                        // trust `normalized()` to be constant on the class; seed
+                        // `C10-eisen-normalizing-unit-sector`: a fixed point of a broken
+                        // normalisation is not a canonical representative)
                         if h[(i, j)].normalized() != h[(i, j)] {
                             fail(format!("pivot {} at ({i},{j}) is not normalised: {}", piv.show(), hr.show()));
+                        }
+                        for u in units::<R::Ref>() {
+                            let assoc = R::from_ref(&piv.mul(&u));
+                            if assoc.normalized() != h[(i, j)] {
+                                fail(format!(
+                                    "pivot {} at ({i},{j}) is not the canonical representative of its class: its associate {} normalises to {}: {}",
+                                    piv.show(), piv.mul(&u).show(), assoc.normalized().to_ref().show(), hr.show()
+                                ));
+                            }
                         }
                         for i2 in i + 1..hr.m {
                             if !hr.at(i2, j).is_zero() {
